@@ -169,7 +169,7 @@ func c17v4(c *evid.Ctx) {
 
 func c17v6(c *evid.Ctx) {
 	r := c.R.Fork("v6")
-	n := c.Scale(1<<16, 1<<20)
+	n := c.Scale(1<<16, 1<<23)
 	for i := 0; i < n; i++ {
 		ip := make(net.IP, 16)
 		copy(ip, r.Bytes(16))
